@@ -76,6 +76,11 @@ def f1_literal_from_spelling(ctx: Ctx):
     ctx.check(good, PARSER, r[2] or fn, q, 'bool constant is tested before int (bool is an int subclass)', f'got {r[1]!r}')
 
 
+def decnum_zero_sign(text: str) -> bool:
+    """Whether the decimal text of a zero literal is written with a minus (what `Decnum.as_real` reads)."""
+    return text.lstrip().startswith('-')
+
+
 def f2_literal_lowering(ctx: Ctx):
     repo = ctx.repo
     q = 'BytecodeCompiler._rational_to_ast'
@@ -121,11 +126,17 @@ def f2_literal_lowering(ctx: Ctx):
                 arm = cse
     if arm is None:
         raise ShapeError('USub arm not found')
-    r = decide(repo, PARSER, arm.body, {'isinstance(arg, RationalVal) and arg.as_rational() == 0': True, 'isinstance(arg, Integer)': False},
-               on_assign=lambda st, e: isinstance(st, ast.Assign))
-    good = r[0] == 'return' and isinstance(r[1], Opaque) and isinstance(r[1].node, ast.Call) and call_name(r[1].node) == 'Decnum' \
-        and isinstance(r[1].node.args[0], ast.Constant) and str(r[1].node.args[0].value).startswith('-0')
-    ctx.check(good, PARSER, r[2] or pu, 'Parser._parse_unaryop', '-<zero literal> folds to the literal -0.0', f'got {r[1]!r}')
+    # a zero literal carries a sign (`as_real` is a Float exactly for a negative zero); negating it flips that sign
+    for signed, want, label in ((False, '-0', '-<zero literal> folds to the literal -0.0'), (True, '0', '-<negative zero literal> folds to the literal +0.0')):
+        try:
+            r = decide(repo, PARSER, arm.body, {'isinstance(arg, RationalVal) and arg.as_rational() == 0': True, 'isinstance(arg, Integer)': False,
+                                                'isinstance(arg.as_real(), Float)': signed}, on_assign=lambda st, e: isinstance(st, ast.Assign))
+        except Exception as ex:     # the arm does not look at the sign of the zero at all
+            r = ('undecided', ex, None)
+        good = r[0] == 'return' and isinstance(r[1], Opaque) and isinstance(r[1].node, ast.Call) and call_name(r[1].node) == 'Decnum' \
+            and isinstance(r[1].node.args[0], ast.Constant) and str(r[1].node.args[0].value).lstrip('+').startswith(want) \
+            and decnum_zero_sign(str(r[1].node.args[0].value)) == (not signed)
+        ctx.check(good, PARSER, r[2] or pu, 'Parser._parse_unaryop', label, f'got {r[1]!r}: `-(-0.0)` evaluates to -0.0')
     r = decide(repo, PARSER, arm.body, {'isinstance(arg, RationalVal) and arg.as_rational() == 0': False, 'isinstance(arg, Integer)': True},
                on_assign=lambda st, e: isinstance(st, ast.Assign))
     good = r[0] == 'return' and isinstance(r[1], Opaque) and norm(r[1].node) == 'Integer(-arg.val, loc)'
@@ -362,6 +373,8 @@ RULES = [
 from ..selftest import Mutant  # noqa: E402
 
 MUTANTS = [
+    Mutant('negated-negative-zero-stays-negative', PARSER, "                    if isinstance(arg.as_real(), Float):\n                        return Decnum('0.0', loc)\n", "", 'C06.F2',
+           'finding F38 before its repair: -(-0.0) is -0.0'),
     Mutant('hexfloat-spelling-normalised-through-a-double', PARSER, "        return Hexnum(func, arg.val, loc)", "        return Hexnum(func, float.fromhex(arg.val).hex(), loc)", 'C06.F3',
            'seeded change C06c: hexfloat(\'0x1.00000000000008p+0\') is 1 under the real context'),
     Mutant('hexfloat-case-folded', PARSER, "        return Hexnum(func, arg.val, loc)", "        return Hexnum(func, arg.val.lower(), loc)", 'C06.F3', 'accepts more spellings, changes no value', expect='silent'),
